@@ -14,6 +14,7 @@ from pbsym.ctx import B
 from pbsym.models import s3env, s3 as fs3
 
 PROPERTY = 'C15'
+TECHNIQUE = 'CrossHair/z3 over the real S3 cassette on a bucket model with mutation/intent log and crash injection: symbolic prefix texts (one-save scenario) and solver-enumerated prefix words / call sequences / crash points'
 FUNCTIONS = ['playback/tape_cassettes/s3/s3_tape_cassette.py::S3TapeCassette.__init__',
              'playback/tape_cassettes/s3/s3_tape_cassette.py::S3TapeCassette.create_new_recording',
              'playback/tape_cassettes/s3/s3_tape_cassette.py::S3TapeCassette._assert_not_read_only',
